@@ -5,8 +5,10 @@ package main
 
 import (
 	"fmt"
+	"go/constant"
 	"go/token"
 	"go/types"
+	"strings"
 
 	"golang.org/x/tools/go/ssa"
 )
@@ -18,8 +20,9 @@ var libModels map[string]libModel
 func init() {
 	libModels = map[string]libModel{
 		"strconv.Itoa": func(fv *FV, st *State, ins ssa.CallInstruction, v ssa.Value, callee *ssa.Function, args []string) bool {
-			fv.bind(st, v, sx("str-itoa", args[0]))
-			fv.used("strconv.Itoa: uninterpreted injective function of its argument")
+			c := fv.bind(st, v, sx("str-itoa", args[0]))
+			fv.assume(st, and(eq(sx("itoa-inv", c), args[0]), not(sx("str.prefixof", `"!"`, c)), sx(">=", sx("str.len", c), "1")))
+			fv.used("strconv.Itoa: injective, non-empty, never starts with '!'")
 			return true
 		},
 		"strings.Contains": func(fv *FV, st *State, ins ssa.CallInstruction, v ssa.Value, callee *ssa.Function, args []string) bool {
@@ -76,7 +79,7 @@ func init() {
 		},
 		"errors.New":  modelNewError,
 		"fmt.Errorf":  modelNewError,
-		"fmt.Sprintf": modelFreshString,
+		"fmt.Sprintf": modelSprintf,
 		"fmt.Sprint":  modelFreshString,
 		"strings.Join": modelFreshString,
 		"sync.(*RWMutex).RLock":   modelLock(0, 1, "RLock"),
@@ -91,6 +94,10 @@ func init() {
 			fv.bumpWM(st)
 			c := fv.freshConst("jerr", "Any")
 			fv.assume(st, fv.valid(c, callee.Signature.Results().At(0).Type(), st.wm))
+			fv.assumeForeignErrs(st, callee.Signature, []string{c})
+			if nv := fv.nonVacuousErr(c); nv != "" {
+				fv.assume(st, nv) // encoding/json returns its own error types
+			}
 			fv.setResults(st, v, []string{c})
 			fv.used("encoding/json.Unmarshal: arbitrary (type-valid) value stored through the pointer, arbitrary error")
 			return true
@@ -105,6 +112,48 @@ func modelNewError(fv *FV, st *State, ins ssa.CallInstruction, v ssa.Value, call
 	tag := fv.u.tag(types.NewPointer(types.NewNamed(types.NewTypeName(0, nil, "errors.errorString", nil), types.NewStruct(nil, nil), nil)))
 	fv.bind(st, v, sx("any-ref", r, intLit(int64(tag))))
 	fv.used("errors.New / fmt.Errorf return a fresh non-nil error of a private pointer type")
+	return true
+}
+
+// fmt.Sprintf(format, a...) is a deterministic function of its arguments: modelled as an
+// uninterpreted function per arity (arguments boxed), with the literal prefix of a constant
+// format string known.
+func modelSprintf(fv *FV, st *State, ins ssa.CallInstruction, v ssa.Value, callee *ssa.Function, args []string) bool {
+	cc := ins.Common()
+	n := -1
+	var base string
+	if sl, ok := cc.Args[1].(*ssa.Slice); ok {
+		if al, ok := sl.X.(*ssa.Alloc); ok {
+			if arr, ok := al.Type().Underlying().(*types.Pointer).Elem().Underlying().(*types.Array); ok {
+				n = int(arr.Len())
+				base = fv.val(st, al)
+			}
+		}
+	} else if c, ok := cc.Args[1].(*ssa.Const); ok && c.Value == nil {
+		n = 0
+	}
+	if n < 0 || n > 4 {
+		return modelFreshString(fv, st, ins, v, callee, args)
+	}
+	name := fmt.Sprintf("fmt-sprintf!%d", n)
+	sorts := []string{"String"}
+	terms := []string{args[0]}
+	f := fv.elemFam(types.NewInterfaceType(nil, nil))
+	for i := 0; i < n; i++ {
+		sorts = append(sorts, "Any")
+		terms = append(terms, fv.read(st, f, base, intLit(int64(i))))
+	}
+	fv.eng.declareGhost(name, sorts, "String")
+	c := fv.bind(st, v, sx(name, terms...))
+	if fc, ok := cc.Args[0].(*ssa.Const); ok && fc.Value != nil {
+		fs := constant.StringVal(fc.Value)
+		if i := strings.Index(fs, "%"); i > 0 {
+			fv.assume(st, sx("str.prefixof", strLit(fs[:i]), c))
+		} else if i < 0 {
+			fv.assume(st, eq(c, strLit(fs)))
+		}
+	}
+	fv.used("fmt.Sprintf: deterministic uninterpreted function of (format, args); literal prefix of a constant format is known")
 	return true
 }
 
@@ -301,6 +350,13 @@ func (fv *FV) callFold(st *State, ins ssa.CallInstruction, v ssa.Value, callee *
 		mvars[mapFn.Params[0].Name()] = SVal{itemTerm, mapFn.Params[0].Type()}
 	}
 	mres := fv.applyContractRet(s1, mapC, mapFn.Pkg.Pkg, mapFn.Signature, fmt.Sprintf("fold%d.map", ord), mvars, mapBind, pos)
+	// the helper drops an error that formats to nothing (an empty error list): the fold
+	// contract "errs == nil iff every mapF succeeded" needs mapF errors to be non-vacuous
+	if len(mres) == 2 {
+		if nv := fv.nonVacuousErr(mres[1]); nv != "" {
+			fv.oblige(s1, "fold-errors", fmt.Sprintf("fold%d: an error returned by the map closure is not an empty error list", ord), nv, pos, nil)
+		}
+	}
 	// only successful results reach the reducer
 	if len(mres) == 2 {
 		fv.assume(s1, eq(mres[1], "any-nil"))
@@ -380,6 +436,26 @@ func closureOf(v ssa.Value) (*ssa.Function, []ssa.Value, bool) {
 		return closureOf(x.X)
 	}
 	return nil, nil, false
+}
+
+// nonVacuousErr: err is nil or does not format to an empty list (gqlerrors.ErrorList{} / gqlerror.List{}).
+func (fv *FV) nonVacuousErr(e string) string {
+	var conds []string
+	for _, tn := range [][2]string{{repoModule + "/gqlerrors", "ErrorList"}, {"github.com/vektah/gqlparser/v2/gqlerror", "List"}} {
+		p := fv.eng.pkgByPath[tn[0]]
+		if p == nil || p.Types == nil {
+			continue
+		}
+		o, ok := p.Types.Scope().Lookup(tn[1]).(*types.TypeName)
+		if !ok {
+			continue
+		}
+		conds = append(conds, and(fv.u.isType(e, o.Type()), eq(sx("s-len", sx("a-slice", e)), "0")))
+	}
+	if len(conds) == 0 {
+		return ""
+	}
+	return not(or(conds...))
 }
 
 // applyContractRet is applyContractCore returning the result terms.
